@@ -4,6 +4,9 @@ package hx
 
 import (
 	"math"
+	"regexp"
+
+	"github.com/goghcrow/yae/compiler"
 
 	"github.com/goghcrow/yae/parser/ast"
 	"github.com/goghcrow/yae/types"
@@ -44,6 +47,121 @@ func FrontOnce(e *Engine, src string, tys map[string]*types.Type, names []string
 	return f.expr, f.ty, f.cls
 }
 
+// TypeKey renders a type with object fields in their own order (a cache key).
+func TypeKey(t *types.Type) string {
+	if t == nil {
+		return "nil"
+	}
+	switch t.Kind {
+	case types.KList:
+		return "list[" + TypeKey(t.List().El) + "]"
+	case types.KMap:
+		return "map[" + TypeKey(t.Map().Key) + "," + TypeKey(t.Map().Val) + "]"
+	case types.KMaybe:
+		return "maybe[" + TypeKey(t.Maybe().Elem) + "]"
+	case types.KObj:
+		s := "{"
+		for _, f := range t.Obj().Fields {
+			s += f.Name + ":" + TypeKey(f.Val) + ";"
+		}
+		return s + "}"
+	case types.KFun:
+		s := "fun("
+		for _, p := range t.Fun().Param {
+			s += TypeKey(p) + ","
+		}
+		return s + ")" + TypeKey(t.Fun().Return)
+	}
+	return t.String()
+}
+
+// CloneType rebuilds a type from fresh objects (primitive types are the
+// package's own singletons). Used inside sv.Setup bodies: what a Setup keeps
+// must not point into objects the current path created, because those are
+// rolled back at the end of the path.
+func CloneType(t *types.Type) *types.Type {
+	if t == nil {
+		return nil
+	}
+	switch t.Kind {
+	case types.KList:
+		return types.List(CloneType(t.List().El))
+	case types.KMap:
+		return types.Map(CloneType(t.Map().Key), CloneType(t.Map().Val))
+	case types.KMaybe:
+		return types.Maybe(CloneType(t.Maybe().Elem))
+	case types.KObj:
+		fs := make([]types.Field, len(t.Obj().Fields))
+		for i, f := range t.Obj().Fields {
+			fs[i] = types.Field{Name: f.Name, Val: CloneType(f.Val)}
+		}
+		return types.Obj(fs)
+	case types.KNum:
+		return types.Num
+	case types.KStr:
+		return types.Str
+	case types.KBool:
+		return types.Bool
+	case types.KTime:
+		return types.Time
+	case types.KBot:
+		return types.Bottom
+	}
+	panic("CloneType: " + t.String())
+}
+
+type compiled struct {
+	front
+	cl  [NBackends]compiler.Closure
+	ccl [NBackends]string
+}
+
+// CompiledOnce runs the front end and all four back ends' compilers for one
+// concrete (source, environment types) pair once per worker. Must be called
+// before the path builds any value. The key spells the types out with their
+// field orders.
+func CompiledOnce(e *Engine, src string, tys map[string]*types.Type, names []string) *compiled {
+	key := "compiled:" + src
+	for _, n := range names {
+		key += "|" + n + ":" + TypeKey(tys[n])
+	}
+	return sv.Setup(key, func() interface{} {
+		c := &compiled{}
+		own := map[string]*types.Type{}
+		for _, n := range names {
+			own[n] = CloneType(tys[n])
+		}
+		c.expr, c.ty, c.cls = e.Front(src, own, names)
+		if c.cls != "ok" {
+			return c
+		}
+		for b := 0; b < NBackends; b++ {
+			bb := b
+			c.ccl[b] = sv.Outcome(func() { c.cl[bb] = Backend(bb)(c.expr, e.Rt) })
+		}
+		return c
+	}).(*compiled)
+}
+
+// runCompiled evaluates the four compiled closures on the given bindings.
+func runCompiled(e *Engine, c *compiled, vals map[string]*val.Val, names []string) (res [NBackends]*val.Val, cls [NBackends]string) {
+	for b := 0; b < NBackends; b++ {
+		bb := b
+		if c.ccl[b] != "ok" {
+			cls[b] = c.ccl[b]
+			continue
+		}
+		cls[b] = sv.Outcome(func() {
+			ve := val.NewEnv()
+			for _, n := range names {
+				ve.Put(n, vals[n])
+			}
+			res[bb] = c.cl[bb](ve.Inherit(e.Rt))
+		})
+	}
+	return
+}
+
 // compileRun: front end, then the selector-chosen back end.
 func compileRun(e *Engine, src string, tys map[string]*types.Type, vals map[string]*val.Val, names []string) (*val.Val, *types.Type, string) {
 	expr, ty, cls := e.Front(src, tys, names)
@@ -54,15 +172,80 @@ func backendRun(e *Engine, expr ast.Expr, ty *types.Type, cls string, vals map[s
 	sv.Assert("accepted", cls == "ok")
 	b := sv.Choice("backend", NBackends)
 	var res *val.Val
-	class := sv.Outcome(func() {
-		cl := Backend(b)(expr, e.Rt)
+	var cl compiler.Closure
+	run := func() {
 		ve := val.NewEnv()
 		for _, n := range names {
 			ve.Put(n, vals[n])
 		}
 		res = cl(ve.Inherit(e.Rt))
+	}
+	class := sv.Outcome(func() {
+		cl = Backend(b)(expr, e.Rt)
+		run()
 	})
+	if cl != nil {
+		// the same compiled expression invoked again on equal bindings ends
+		// the same way (a failure must not leave anything behind that turns
+		// the next evaluation into a different failure, or a success)
+		first := res
+		res = nil
+		again := sv.Outcome(run)
+		sv.Assert("second-evaluation-ends-like-the-first", again == class)
+		if again == "ok" && class == "ok" {
+			sv.Assert("second-evaluation-yields-the-same-value", RefSameVal(first, res))
+		}
+		res = first
+	}
 	return res, ty, class
+}
+
+var c02Patterns = []string{"a+", "^x.*y$", "", "[a-c]{2}", "(", "a(b", "[a-", "*", "(?P<n", "\\", "a{2,1}", "x)"}
+var c02Subjects = []string{"", "aa", "xay", "é晓", "(", "a(b"}
+
+// H02_match: match(p, s) stops exactly when p is not a regular expression,
+// with that failure and not an internal one, also when the same pattern is
+// met again (same closure, recompiled expression, other subject).
+func H02_match() {
+	e := Eng()
+	p1 := c02Patterns[sv.Choice("pattern", len(c02Patterns))]
+	p2 := p1
+	if sv.Choice("then", 2) == 1 {
+		p2 = c02Patterns[sv.Choice("pattern2", len(c02Patterns))]
+	}
+	s1 := c02Subjects[sv.Choice("subject", len(c02Subjects))]
+	s2 := c02Subjects[sv.Choice("subject2", len(c02Subjects))]
+	tys := map[string]*types.Type{"p": types.Str, "s": types.Str}
+	names := []string{"p", "s"}
+	expr, _, cls := FrontOnce(e, "match(p, s)", tys, names)
+	sv.Assert("accepted", cls == "ok")
+	b := sv.Choice("backend", NBackends)
+	recompile := sv.Choice("recompile", 2) == 1
+	var cl compiler.Closure
+	step := 0
+	for _, in := range [][2]string{{p1, s1}, {p2, s2}, {p1, s2}} {
+		pat, subj := in[0], in[1]
+		var res *val.Val
+		class := sv.Outcome(func() {
+			if cl == nil || recompile {
+				cl = Backend(b)(expr, e.Rt)
+			}
+			ve := val.NewEnv()
+			ve.Put("p", val.Str(pat))
+			ve.Put("s", val.Str(subj))
+			res = cl(ve.Inherit(e.Rt))
+		})
+		want, err := regexp.MatchString(pat, subj)
+		sv.Assert("no-internal-fault", !InternalFault(class) || hasPrefix(class, "assert:error parsing regexp"))
+		if err != nil {
+			sv.Reach("invalid-pattern")
+			sv.Assert("invalid-pattern-fails-as-documented", hasPrefix(class, "assert:error parsing regexp"))
+		} else {
+			sv.Reach("valid-pattern")
+			sv.Assert("valid-pattern-yields-value", class == "ok" && res != nil && res.Type == types.Bool && res.Bool().V == want)
+		}
+		step++
+	}
 }
 
 // H02_subscript: xs[i] yields xs[trunc(i)] exactly when 0 <= trunc(i) < len
